@@ -55,6 +55,9 @@ class C16Gen:
                        "v": "renamed_%d" % rng.randint(0, 10 ** 6)})
         if cfg.get("unnamed_netlist") and fmt != "edf":
             ev.append({"op": "del_name", "on": self.net})   # only the EDIF writer needs (and defaults) a netlist name
+        if cfg.get("stale_output"):
+            # the output path already holds an older, longer file: what is written now must replace it entirely
+            ev.append({"op": "fs_put", "path": "sim://out1." + fmt, "text": "(stale output of an earlier run)\n" * 400})
         if cfg.get("write_error_at"):
             ev.append({"op": "fs_config", "write_error_at": cfg["write_error_at"]})
         ev.append({"op": "compose", "on": self.net, "path": "sim://out1." + fmt, "opts": opts, "tag": "first", "via": via})
@@ -136,6 +139,7 @@ class C16(Prop):
                 opts["write_eblif_cname"] = r.choice([True, False])
         cfg["opts"] = opts
         cfg["via_method"] = r.random() < 0.3
+        cfg["stale_output"] = r.random() < 0.3
         cfg["unnamed_netlist"] = r.random() < 0.3
         between = []
         for _ in range(r.choice([0, 0, 2, 5, 10])):
